@@ -1640,6 +1640,32 @@ def fixed_witness():
   return cfg, steps
 
 
+def fixed_witness_unhashable():
+  """A scripted classic history on an Any key column: cells of INDEXED rows go from a hashable key to an unhashable
+  one (a list, a dict) and back, singly and in bulk, next to ordinary key changes; after every edit every probe is
+  judged (a row whose key became unhashable must have left its old key: membership, order, lookupOne)."""
+  cfg = {"ktype": "Any", "probes": [0, 2, 4, 7, 10, 11, 1, 3, 5, 6], "mixed_sort": False, "direct": False}
+  L = lambda *x: ["L"] + list(x)
+  steps = [
+    ("addP", [["BulkAddRecord", "P", [None] * 4, {"p": [1, 2, "a", 1], "q": ["a", "b", "a", "b"], "pr": [1, 2, 1, 0]}]]),
+    ("addT", [["BulkAddRecord", "T", [None] * 5, {"k": [1, 2, 1, "a", 2], "k2": ["a", "b", "a", "b", "a"], "r": [1, 2, 1, 0, 2],
+                                                  "s1": [3, 1, 2, 5, 4], "s2": ["a", "b", "a", "c", ""]}]]),
+    ("unh_toList", [["UpdateRecord", "T", 1, {"k": L(1, 2)}]]),          # hashable -> list
+    ("unh_toList", [["UpdateRecord", "T", 2, {"k": L()}]]),
+    ("unh_back", [["UpdateRecord", "T", 1, {"k": 2}]]),                  # ... and back to another scalar
+    ("unh_toDict", [["UpdateRecord", "T", 3, {"k": ["O", {"a": 1}]}]]),  # hashable -> dict
+    ("unh_bulk", [["BulkUpdateRecord", "T", [4, 5], {"k": [L("a"), 1]}]]),
+    ("undo", None),
+    ("unh_back", [["BulkUpdateRecord", "T", [2, 3], {"k": [1, 1]}]]),
+    ("unh_toList", [["UpdateRecord", "T", 2, {"k": L(1), "s1": 9}]]),    # with a sort-key change in the same action
+    ("unh_swap", [["BulkUpdateRecord", "T", [1, 2], {"k": [L(2), 2]}]]),
+    ("remT", [["RemoveRecord", "T", 1]]),
+    ("undo", None),
+    ("unh_back", [["UpdateRecord", "T", 1, {"k": "a"}]]),
+  ]
+  return cfg, steps
+
+
 def build_history(pid, job, n_steps, thorough):
   """job: int = a classic random history; ("mixed", n) = a random mixed-key history;
   ("trans", v) = exhaustive (Ref key, list cell) transitions; ("fixed", 0) = the scripted witness"""
@@ -1653,6 +1679,10 @@ def build_history(pid, job, n_steps, thorough):
     h.run(rng, n_steps)
   elif job[0] == "trans":
     cfg, steps = trans_family(job[1], thorough)
+    h = History(cfg)
+    h.run_script(steps)
+  elif job[1] == 1:
+    cfg, steps = fixed_witness_unhashable()
     h = History(cfg)
     h.run_script(steps)
   else:
@@ -1804,7 +1834,7 @@ def run_histories(ck, n, n_steps, procs, n_mixed=0, n_trans=0):
   # the mixed-key stream: scripted witness, exhaustive transitions, random mixed histories (the
   # longest jobs first)
   seeds = [("trans", v) for v in range(n_trans)] + seeds
-  seeds += [("mixed", ck.seed * 100000 + i) for i in range(n_mixed)] + ([("fixed", 0)] if n_mixed else [])
+  seeds += [("mixed", ck.seed * 100000 + i) for i in range(n_mixed)] + ([("fixed", 0)] if n_mixed else []) + [("fixed", 1)]
   if procs <= 1:
     results = [_work((ck.pid, seeds, n_steps, thorough))]
   else:
